@@ -18,6 +18,10 @@ import (
 type Msg struct {
 	ID          string
 	From        string
+	// OrigFrom: the sender as the client spelled it (MsgMetadata.OriginalFrom);
+	// differs from From when the accepting endpoint normalised the address or a
+	// modifier rewrote the sender before the queue
+	OrigFrom string
 	Rcpts       []string
 	Hdr         textproto.Header
 	HdrBytes    []byte
@@ -275,6 +279,17 @@ func Gen(t *simrt.Tape, prof string) *Scenario {
 		if prof != "c02" && prof != "c12" && t.Choose(st, 6) == 0 {
 			m.From = ""
 		}
+		m.OrigFrom = m.From
+		if (prof == "c18" || prof == "c10") && m.From != "" && t.Choose(st, 3) == 0 {
+			// what the client typed differs from the envelope sender the queue
+			// is given: another spelling (the endpoint normalises the domain)
+			// or another address (a sender modifier rewrote it)
+			if i := strings.LastIndex(m.From, "@"); i >= 0 && t.Choose(st, 2) == 0 {
+				m.OrigFrom = m.From[:i+1] + strings.ToUpper(m.From[i+1:])
+			} else {
+				m.OrigFrom = "typed-by-client@elsewhere.example"
+			}
+		}
 		nr := 1 + t.Choose(st, 4)
 		if prof == "c02" && nr > 3 {
 			nr = 3
@@ -288,6 +303,15 @@ func Gen(t *simrt.Tape, prof string) *Scenario {
 				if t.Choose(st, 2) == 0 {
 					m.OrigRcpts[r] = fmt.Sprintf("orig%d-%s@alias.example", j, m.ID)
 				}
+			}
+			if prof == "c18" && len(m.Rcpts) >= 2 && t.Choose(st, 3) == 0 {
+				// overlapping rewrites: the client named both an alias and the
+				// address it is rewritten to, which is rewritten itself
+				// (alias -> Rcpts[0], Rcpts[0] -> Rcpts[1]); every recipient is
+				// reported under the address one step back, not at the end of
+				// the chain
+				m.OrigRcpts[m.Rcpts[0]] = fmt.Sprintf("orig0-%s@alias.example", m.ID)
+				m.OrigRcpts[m.Rcpts[1]] = m.Rcpts[0]
 			}
 		}
 		m.AbortIt = (prof == "c02" || prof == "c12" || prof == "c01") && t.Choose(st, 6) == 0
